@@ -29,9 +29,11 @@ const (
 	shPtrSlice         // Find into []*T
 	shDup              // Find into []T through a cross join that returns every parent twice
 	shDupPtr           // Association mode only: []*T that contains the same pointer twice
+	shMult             // Find into []T through a join that returns parent #i Mult[i-1] times (1 beyond the vector)
+	shMultPtr          // the same into []*T
 )
 
-var shapeName = []string{"struct", "struct-prefilled", "[]T", "[]*T", "[]T-with-duplicates", "[]*T-same-pointer-twice"}
+var shapeName = []string{"struct", "struct-prefilled", "[]T", "[]*T", "[]T-with-duplicates", "[]*T-same-pointer-twice", "[]T-multiplicity", "[]*T-multiplicity"}
 
 // Exp says that relation Rel is loaded by the check, under mode Mode.
 type Exp struct{ Rel, Mode string }
@@ -42,6 +44,7 @@ type Check struct {
 	Kind  int
 	Shape int
 	Core  bool
+	Mult  []int // shMult: how often parent #1, #2, ... occurs in the result slice
 	Apply func(db *gorm.DB) *gorm.DB
 	Exp   []Exp
 	// association mode
@@ -105,7 +108,7 @@ func newDest(typ reflect.Type, shape int) reflect.Value {
 	switch shape {
 	case shStruct, shPrefilled:
 		return reflect.New(typ)
-	case shPtrSlice, shDupPtr:
+	case shPtrSlice, shDupPtr, shMultPtr:
 		return reflect.New(reflect.SliceOf(reflect.PtrTo(typ)))
 	default:
 		return reflect.New(reflect.SliceOf(typ))
@@ -248,10 +251,25 @@ func (c *Check) Run(e *h.Env, g *Graph) (res Result) {
 		default:
 			dest := newDest(c.Dir.Typ, c.Shape)
 			tx := c.Apply(db)
-			mult := 1
-			if c.Shape == shDup {
+			multOf := func(seq int) int { return 1 }
+			switch c.Shape {
+			case shDup:
 				tx = tx.Joins("JOIN c11_dup")
-				mult = 2
+				multOf = func(int) int { return 2 }
+			case shMult, shMultPtr:
+				multOf = func(seq int) int {
+					if seq >= 1 && seq <= len(c.Mult) {
+						return c.Mult[seq-1]
+					}
+					return 1
+				}
+				e.MustExec("DELETE FROM c11_mult")
+				for _, l := range live {
+					for n := 1; n <= multOf(l.Seq); n++ {
+						e.MustExec("INSERT INTO c11_mult (pseq,n) VALUES (?,?)", l.Seq, n)
+					}
+				}
+				tx = tx.Joins("JOIN c11_mult ON c11_mult.pseq = " + c.Dir.Table + ".seq")
 			}
 			if err := tx.Find(dest.Interface()).Error; err != nil {
 				res.add("error", "Find: %v", err)
@@ -277,8 +295,8 @@ func (c *Check) Run(e *h.Env, g *Graph) (res Result) {
 				return
 			}
 			for _, l := range live {
-				if len(bySeq[l.Seq]) != mult {
-					res.add("parent rows differ", "#%d returned %d times, expected %d", l.Seq, len(bySeq[l.Seq]), mult)
+				if len(bySeq[l.Seq]) != multOf(l.Seq) {
+					res.add("parent rows differ", "#%d returned %d times, expected %d", l.Seq, len(bySeq[l.Seq]), multOf(l.Seq))
 				}
 			}
 			for _, r := range rs {
@@ -431,6 +449,9 @@ func (c *Check) compareJoinRows(g *Graph, l Left, rows []rec, single bool, res *
 
 func (f *Family) add(c *Check) {
 	c.Name = fmt.Sprintf("%s/%s/%s", c.Dir.Name, c.Name, shapeName[c.Shape])
+	if len(c.Mult) > 0 {
+		c.Name += "-" + strings.ReplaceAll(strings.Trim(fmt.Sprint(c.Mult), "[]"), " ", "-")
+	}
 	if f.byName == nil {
 		f.byName = map[string]*Check{}
 	}
@@ -458,6 +479,44 @@ func (f *Family) assoc(d *Dir, rel, mode string, conds []interface{}, core int, 
 	}
 	for _, s := range shapes {
 		f.add(&Check{Name: name, Dir: d, Kind: kAssoc, Shape: s, Rel: rel, Mode: mode, Conds: conds, Core: s == core})
+	}
+}
+
+// multVectors: how often each of up to three parents occurs in the result
+// slice: every vector over {1,3,5} except all-ones (thorough), every vector over
+// {1,3} except all-ones plus a single 5 at each position (quick). Occurrence
+// counts 3 and 5 leave spare capacity in the per-key parent lists (cap 4, 8).
+func multVectors(thorough bool) [][]int {
+	var out [][]int
+	vals := []int{1, 3}
+	if thorough {
+		vals = []int{1, 3, 5}
+	}
+	for _, a := range vals {
+		for _, b := range vals {
+			for _, c := range vals {
+				if a*b*c != 1 {
+					out = append(out, []int{a, b, c})
+				}
+			}
+		}
+	}
+	if !thorough {
+		out = append(out, []int{5, 1, 1}, []int{1, 5, 1}, []int{1, 1, 5})
+	}
+	return out
+}
+
+var thoroughTier bool
+
+// multChecks: a Preload on result slices with multiplied parents.
+func (f *Family) multChecks(d *Dir, name string, apply func(*gorm.DB) *gorm.DB, exp []Exp) {
+	for _, v := range multVectors(thoroughTier) {
+		sh := shMult
+		if ((v[0]+3*v[1]+5*v[2])/2)%2 == 1 { // about half of the vectors go into []*T
+			sh = shMultPtr
+		}
+		f.add(&Check{Name: name, Dir: d, Kind: kPreload, Shape: sh, Mult: v, Apply: apply, Exp: exp})
 	}
 }
 
@@ -493,6 +552,7 @@ func (f *Family) stdChecks(d *Dir, many, one string, joinable bool) {
 		f.preload(d, "Preload("+many+",scope)", P(many, tagX), []Exp{{many, "cond"}}, none, shPtrSlice, shDup)
 		f.assoc(d, many, "", nil, shSlice, shStruct, shSlice, shDupPtr)
 		f.assoc(d, many, "cond", condArgs, none, shStruct, shSlice)
+		f.multChecks(d, "Preload("+many+")", P(many), []Exp{{many, ""}})
 	}
 	if one != "" {
 		f.preload(d, "Preload("+one+")", P(one), []Exp{{one, ""}}, shStruct, shStruct, shSlice, shPtrSlice, shDup, shPrefilled)
@@ -514,6 +574,9 @@ func (f *Family) stdChecks(d *Dir, many, one string, joinable bool) {
 			oneAssocCore = shStruct
 		}
 		f.assoc(d, one, "", nil, oneAssocCore, shStruct, shSlice, shDupPtr)
+		if many == "" {
+			f.multChecks(d, "Preload("+one+")", P(one), []Exp{{one, ""}})
+		}
 		f.assoc(d, one, "cond", condArgs, none, shStruct)
 	}
 	if many != "" && one != "" {
